@@ -34,7 +34,7 @@ import itertools
 import json
 import os
 
-from .conddrift import (_clean, _enclosing_iters, _from_refusing_exit, _in_raise,
+from .conddrift import (_clean, _enclosing_iters, _in_raise,
                         _is_memo_test, _memo_containers, _message_key, _nulled_local,
                         _subst_text, _tracked_call, _truthy, canonical_atom, TV)
 from .model import call_name, own_nodes, unparse
@@ -247,8 +247,6 @@ def _formula(pm, f, pi, memo, kind, n):
     iters = set(_enclosing_iters(f, n)) if kind == 'call' else set()
     conj = []
     for e, pol in pi.at(n):
-        if _from_refusing_exit(e, pol, n):
-            continue
         is_memo = _is_memo_test(f, e, memo)
         if kind == 'call' and not is_memo:
             nulled = _nulled_local(f, e, pol)
@@ -386,6 +384,17 @@ def run(pm, ctx, rule, funcs, kinds, title, suffix, min_funcs=1, extra_is_violat
             if verdict in ('lost', 'both', 'changed') or \
                     (verdict == 'extra' and r['kind'] in extra_is_violation):
                 problems.append((verdict, key, wit))
+        if problems and any(k.startswith('raise') for _, k, _ in problems):
+            # refusals that only changed places: the function refuses exactly the same inputs,
+            # possibly with another of its messages (two independent checks swapped)
+            rk = sorted(k for k, v in ref[q].items() if v['kind'] == 'raise')
+            ck = sorted(k for k, v in cur.items() if v['kind'] == 'raise')
+            if rk == ck:
+                r_all = [conj for k in rk for conj in ref[q][k]['occ']]
+                c_all = [conj for k in ck for conj in cur[k]['occ']]
+                v, _ = compare(r_all, c_all, ambiguous=_ambiguous(f))
+                if v == 'ok':
+                    problems = [p for p in problems if not p[1].startswith('raise')]
         ctx.check(rule, not problems,
                   '%s: effects (%s) under their confirmed conditions' % (f.short, '/'.join(kinds)),
                   f.loc,
@@ -455,6 +464,15 @@ def run_refusals(pm, ctx, rule, prefixes, exc_names, title, what, error_lists=('
             matched += 1
             verdict, wit = compare(r[key]['occ'], c['occ'], ambiguous=_ambiguous(f))
             inst = '%s: %s reported under its confirmed condition' % (f.short, key[:60])
+            if verdict not in ('ok', 'incomparable') and c['kind'] == 'raise':
+                rk = sorted(k for k, v in r.items() if v['kind'] == 'raise')
+                ck = sorted(k for k, v in cur.items() if v['kind'] == 'raise')
+                if rk == ck:
+                    v2, _ = compare([cj for k in rk for cj in r[k]['occ']],
+                                    [cj for k in ck for cj in cur[k]['occ']],
+                                    ambiguous=_ambiguous(f))
+                    if v2 == 'ok':
+                        verdict = 'ok'      # the same inputs are refused, by a sibling check
             if verdict in ('ok', 'incomparable'):
                 ctx.ok(rule, inst, f.loc)
                 continue
